@@ -185,6 +185,42 @@ pub fn long_word_titles(l: L) -> Vec<String> {
     out
 }
 
+/// One word per row of the frozen compose / reduce tables of *every* language (a language without the row must
+/// pass the character through untouched and still find it): the row's character(s) - the decomposed pair, the
+/// precomposed character, the reducible character, each in the case the table lists it - at each of the four
+/// positions of a four-letter word of the language's script.
+pub fn inventory_word_titles(l: L) -> Vec<String> {
+    let s = sym(l);
+    let base = [s.c, s.v, s.c2, s.c];
+    let mut xs: Vec<String> = Vec::new();
+    for tl in [L::De, L::En, L::Es, L::Fr, L::Pt, L::Ru] {
+        for (from, to) in crate::refs::frozen_compose(tl) {
+            xs.push((*from).to_string());
+            xs.push((*to).to_string());
+        }
+        for (from, _) in crate::refs::frozen_reduce(tl) {
+            xs.push((*from).to_string());
+        }
+    }
+    xs.sort();
+    xs.dedup();
+    let mut out = Vec::with_capacity(xs.len() * 4);
+    for x in &xs {
+        for pos in 0..4 {
+            let mut w = String::new();
+            for (i, b) in base.iter().enumerate() {
+                if i == pos {
+                    w.push_str(x);
+                } else {
+                    w.push(*b);
+                }
+            }
+            out.push(w);
+        }
+    }
+    out
+}
+
 /// Very long texts: k distinct corpus words joined by single spaces (k words ~ 4-5k characters for k = 1000).
 pub fn long_text(k: usize, offset: usize) -> String {
     let words = corpus_en_words();
